@@ -12,7 +12,7 @@ import (
 	"golang.org/x/tools/go/ssa"
 )
 
-var transparentPkgs = map[string]bool{"encoding/binary": true}
+var transparentPkgs = map[string]bool{"encoding/binary": true, "image": true}
 
 const maxInlineBlocks = 16
 const maxInlineDepth = 3
@@ -599,7 +599,7 @@ func (c *Ctx) contractCall(fr *Frame, ct *Contract, callee *ssa.Function, com *s
 		// ghost results are existentially quantified for the caller: fresh values
 		gv := map[string]CVal{}
 		for _, g := range ct.Ghosts {
-			t := basicTypes[g.Type]
+			t := ghostType(g.Type)
 			if t == nil {
 				cerr("ghost result %s: unsupported type %s", g.Name, g.Type)
 			}
@@ -909,4 +909,22 @@ func (c *Ctx) constFuncGlobal(v ssa.Value) (*ssa.Function, Val, bool) {
 		}
 	}
 	return nil, nil, false
+}
+
+// ghostType: basic types and fixed arrays of basic types ("[64]float64").
+func ghostType(s string) types.Type {
+	if t := basicTypes[s]; t != nil {
+		return t
+	}
+	if strings.HasPrefix(s, "[") {
+		if i := strings.Index(s, "]"); i > 1 {
+			var n int64
+			if _, err := fmt.Sscanf(s[1:i], "%d", &n); err == nil {
+				if et := basicTypes[s[i+1:]]; et != nil {
+					return types.NewArray(et, n)
+				}
+			}
+		}
+	}
+	return nil
 }
